@@ -158,6 +158,16 @@ func (part Partition) Contains(d time.Time) bool {
 	return part.span.Contains(d)
 }
 
+// Reported returns the partition restricted to its periods: its span starts with the first period
+// (with a limit on the number of periods, the span of a partition reaches back to the start of the
+// window while the periods do not).
+func (part Partition) Reported() Partition {
+	if len(part.periods) > 0 {
+		part.span.Start = part.periods[0].Start
+	}
+	return part
+}
+
 func NewPartition(period Period, interval Interval, last int) Partition {
 	if period.Start.IsZero() {
 		panic("can't create partition with zero time")
